@@ -196,7 +196,11 @@ def run_case(case, seed):
         svB = np.linalg.svd(PB, compute_uv=False)
         if svB[-1] >= 1e-5 * svB[0]:
             datasets.append((xB, yB, PB, (2,)))      # a second, different data set of the same sizes in the same process
-        for xd, yd, Pd, rep_list in datasets:
+        guess2 = tt_from(rand_cores(rng, n, [1] * p, case['rg']))
+        for di, (xd, yd, Pd, rep_list) in enumerate(datasets + ([(x, y, P, (1, 2))] if case['dout'] >= 2 else [])):
+          # last entry (two output rows): the initial guess given as a LIST of different trains, one per row (an undocumented
+          # warm-start form: the routine works in the list's trains, so copies are handed over and not re-read)
+          glist = di == len(datasets)
           evals = [np.array([[float(f(xd[:, j])) for j in range(m)] for f in b]) for b in basis]
           prev = None
           for reps in rep_list:
@@ -214,7 +218,7 @@ def run_case(case, seed):
                         s_.cur.before(M, rhs, i, direction, solution)
                 STATE['mon'] = Multi()
                 with quiet():
-                    sol = reg.arr(xd, yd, basis, guess, repeats=reps, rcond=1e-14, progress=False)
+                    sol = reg.arr(xd, yd, basis, ([guess.copy(), guess2.copy()] + [guess.copy() for _ in range(case['dout'] - 2)]) if glist else guess, repeats=reps, rcond=1e-14, progress=False)
                 STATE['mon'] = None
                 if not r.true(key + ':result-list', isinstance(sol, list) and len(sol) == case['dout']):
                     continue
